@@ -30,8 +30,9 @@ VARIABLES l,
           total, dataEnd,     \* of the current group
           dmode, dk,          \* detailed run in progress: mode and fault point
           dacc,               \* ... bytes accepted so far
-          dhit                \* ... some call/access failed
-vars == <<l, total, dataEnd, dmode, dk, dacc, dhit>>
+          dhit,               \* ... some call/access failed
+          dheal               \* ... a fail-once destination has had its failure
+vars == <<l, total, dataEnd, dmode, dk, dacc, dhit, dheal>>
 
 E == Trace[l]
 Is(ev) == l <= Len(Trace) /\ E.ev = ev
@@ -42,43 +43,55 @@ Fail(clause) == /\ PrintT(<<"FAILED", l, E.g, E.k, clause>>)
 Check(v) == IF v = "" THEN TRUE ELSE Fail(v)
 Min2(a, b) == IF a < b THEN a ELSE b
 
-Init == /\ l = 1 /\ total = 0 /\ dataEnd = 0 /\ dmode = "" /\ dk = 0 /\ dacc = 0 /\ dhit = FALSE
+Init == /\ l = 1 /\ total = 0 /\ dataEnd = 0 /\ dmode = "" /\ dk = 0 /\ dacc = 0 /\ dhit = FALSE /\ dheal = FALSE
         /\ TLCSet(1, 0) /\ TLCSet(2, 0) /\ TLCSet(3, 0)
 
 Reset == /\ Is("reset")
          /\ total' = E.total /\ dataEnd' = E.dataEnd
-         /\ dmode' = "" /\ dk' = 0 /\ dacc' = 0 /\ dhit' = FALSE
+         /\ dmode' = "" /\ dk' = 0 /\ dacc' = 0 /\ dhit' = FALSE /\ dheal' = FALSE
          /\ Consume
 
 ---------------------------------------------------------------------------
 (* writes *)
-\* IOFault!WErrIffShort, WCountAccepted, WSuccessTotal; the destination itself is checked too
+\* IOFault!ErrIffHit, WErrIffShort, WCountAccepted, WSuccessTotal.  dfail = the destination reported
+\* a failure to some call (possibly together with a full count).  The destination itself is checked
+\* last, and only for runs the library handled correctly (it presupposes that the code stops at the
+\* first error and offers the whole file otherwise).
+EagerMode(m) == m \in {"eager", "eonce"}
+OnceMode(m)  == m \in {"once", "eonce"}
 WVerdict ==
   IF E.panic THEN "write-panic" ELSE
-  IF E.acc > Min2(E.k, total) \/ (E.mode = "exact" /\ E.acc # Min2(E.k, total)) THEN "HARNESS-destination" ELSE
-  IF E.k >= total /\ E.err THEN "HARNESS-intact-write-failed" ELSE
-  IF E.k < total /\ ~E.err THEN "write-error-lost" ELSE
+  IF E.dfail /\ ~E.err THEN "write-error-lost" ELSE
+  IF ~E.dfail /\ E.err THEN "HARNESS-intact-write-failed" ELSE
   IF E.hasn /\ E.n # E.acc THEN "write-count" ELSE
-  IF E.hasn /\ ~E.err /\ E.n # total THEN "write-count-success" ELSE ""
+  IF ~E.err /\ E.acc # total THEN "write-success-short" ELSE
+  IF E.dfail # (E.k < total \/ EagerMode(E.mode)) THEN "HARNESS-destination" ELSE
+  IF E.acc > Min2(E.k, total) \/ (E.mode \in {"exact", "eager", "once", "eonce"} /\ E.acc # Min2(E.k, total))
+    THEN "HARNESS-destination" ELSE ""
 
 W == /\ Is("w") /\ Check(WVerdict)
-     /\ UNCHANGED <<total, dataEnd, dmode, dk, dacc, dhit>> /\ Consume
+     /\ UNCHANGED <<total, dataEnd, dmode, dk, dacc, dhit, dheal>> /\ Consume
 
 WB == /\ Is("wb")
-      /\ dmode' = E.mode /\ dk' = E.k /\ dacc' = 0 /\ dhit' = FALSE
+      /\ dmode' = E.mode /\ dk' = E.k /\ dacc' = 0 /\ dhit' = FALSE /\ dheal' = FALSE
       /\ UNCHANGED <<total, dataEnd>> /\ Consume
 
 \* one call of the destination: IOFault!Accepts
 WCVerdict ==
-  LET room == dk - dacc IN
-  IF E.m <= room THEN (IF E.a = E.m /\ ~E.fail THEN "" ELSE "HARNESS-destination")
+  LET room == dk - dacc
+      ok(c) == IF c THEN "" ELSE "HARNESS-destination" IN
+  IF dheal THEN ok(E.a = E.m /\ ~E.fail)
+  ELSE IF EagerMode(dmode)
+    THEN (IF E.m > 0 /\ E.m >= room THEN ok(E.fail /\ E.a = Min2(E.m, room)) ELSE ok(E.a = E.m /\ ~E.fail))
+  ELSE IF E.m <= room THEN ok(E.a = E.m /\ ~E.fail)
   ELSE IF ~E.fail THEN "HARNESS-destination"
-  ELSE CASE dmode = "exact"  -> (IF E.a = room THEN "" ELSE "HARNESS-destination")
-         [] dmode = "atomic" -> (IF E.a = 0 THEN "" ELSE "HARNESS-destination")
-         [] OTHER            -> (IF E.a >= 0 /\ E.a <= room THEN "" ELSE "HARNESS-destination")
+  ELSE CASE dmode \in {"exact", "once"} -> ok(E.a = room)
+         [] dmode = "atomic" -> ok(E.a = 0)
+         [] OTHER            -> ok(E.a >= 0 /\ E.a <= room)
 
 WC == /\ Is("wc") /\ Check(WCVerdict)
       /\ dacc' = dacc + E.a /\ dhit' = (dhit \/ E.fail)
+      /\ dheal' = (dheal \/ (E.fail /\ OnceMode(dmode)))
       /\ UNCHANGED <<total, dataEnd, dmode, dk>> /\ Consume
 
 \* IOFault!ErrIffHit, WCountAccepted, WSuccessTotal at the return of the call
@@ -88,10 +101,10 @@ WRVerdict ==
   IF ~dhit /\ E.err THEN "HARNESS-intact-write-failed" ELSE
   IF E.hasn /\ E.n # dacc THEN "write-count" ELSE
   IF ~E.err /\ dacc # total THEN "write-success-short" ELSE
-  IF dhit # (dk < total) THEN "write-fault-not-reached" ELSE ""
+  IF dhit # (dk < total \/ EagerMode(dmode)) THEN "HARNESS-destination" ELSE ""
 
 WR == /\ Is("wr") /\ Check(WRVerdict)
-      /\ UNCHANGED <<total, dataEnd, dmode, dk, dacc, dhit>> /\ Consume
+      /\ UNCHANGED <<total, dataEnd, dmode, dk, dacc, dhit, dheal>> /\ Consume
 
 ---------------------------------------------------------------------------
 (* reads *)
@@ -103,10 +116,10 @@ RVerdict ==
   IF E.mode = "failat" /\ E.nfail > 0 /\ ~E.err THEN "read-error-lost" ELSE ""
 
 R == /\ Is("r") /\ Check(RVerdict)
-     /\ UNCHANGED <<total, dataEnd, dmode, dk, dacc, dhit>> /\ Consume
+     /\ UNCHANGED <<total, dataEnd, dmode, dk, dacc, dhit, dheal>> /\ Consume
 
 RB == /\ Is("rb")
-      /\ dmode' = E.mode /\ dk' = E.k /\ dacc' = 0 /\ dhit' = FALSE
+      /\ dmode' = E.mode /\ dk' = E.k /\ dacc' = 0 /\ dhit' = FALSE /\ dheal' = FALSE
       /\ UNCHANGED <<total, dataEnd>> /\ Consume
 
 \* one ReadAt: IOFault!Fails for the failing source; the cut file fails (EOF) beyond its end
@@ -117,7 +130,7 @@ RAVerdict ==
 
 RA == /\ Is("ra") /\ Check(RAVerdict)
       /\ dhit' = (dhit \/ E.fail) /\ dacc' = dacc + 1
-      /\ UNCHANGED <<total, dataEnd, dmode, dk>> /\ Consume
+      /\ UNCHANGED <<total, dataEnd, dmode, dk, dheal>> /\ Consume
 
 RRVerdict ==
   IF E.panic THEN "read-panic" ELSE
@@ -126,7 +139,7 @@ RRVerdict ==
   IF dmode = "trunc" /\ dk < dataEnd /\ ~E.err THEN "read-truncation-accepted" ELSE ""
 
 RR == /\ Is("rr") /\ Check(RRVerdict)
-      /\ UNCHANGED <<total, dataEnd, dmode, dk, dacc, dhit>> /\ Consume
+      /\ UNCHANGED <<total, dataEnd, dmode, dk, dacc, dhit, dheal>> /\ Consume
 
 Next == Reset \/ W \/ WB \/ WC \/ WR \/ R \/ RB \/ RA \/ RR
 Spec == Init /\ [][Next]_vars
